@@ -39,6 +39,7 @@ type Case struct {
 	Sig     string      `json:"operand_kinds"` // operand-kind signature
 	Backing int         `json:"backing"`       // 0 emu wavefront, 1 timing wavefront
 	Idx     int         `json:"idx"`
+	Both    bool        `json:"both_backings,omitempty"` // corner case executed on the emu and on the timing backing
 }
 
 // job is everything known about one opcode of one architecture.
@@ -91,6 +92,10 @@ type builder struct {
 	busOp gcnasm.Operand
 	lit   bool
 	litV  uint32
+	// forceLast: the next register allocated is the last one of its file
+	// (s101 / s[100:101] / v255 / v[254:255]): operands read wider than
+	// they are run off the end of the register file there
+	forceLast bool
 }
 
 func newBuilder(r *vlib.PRNG, c *Case) *builder {
@@ -104,6 +109,20 @@ func (b *builder) sgpr(w int) gcnasm.Operand {
 	}
 	if w >= 4 {
 		align = 4
+	}
+	if b.forceLast {
+		b.forceLast = false
+		i := (isaspec.NumSGPR - w) / align * align
+		free := true
+		for k := 0; k < w; k++ {
+			free = free && !b.usedS[i+k]
+		}
+		if free {
+			for k := 0; k < w; k++ {
+				b.usedS[i+k] = true
+			}
+			return gcnasm.SRange(i, w)
+		}
 	}
 	for try := 0; try < 200; try++ {
 		i := b.r.Intn(isaspec.NumSGPR-w+1) / align * align
@@ -124,6 +143,20 @@ func (b *builder) sgpr(w int) gcnasm.Operand {
 }
 
 func (b *builder) vgpr(w int) gcnasm.Operand {
+	if b.forceLast {
+		b.forceLast = false
+		i := isaspec.NumVGPR - w
+		free := true
+		for k := 0; k < w; k++ {
+			free = free && !b.usedV[i+k]
+		}
+		if free {
+			for k := 0; k < w; k++ {
+				b.usedV[i+k] = true
+			}
+			return gcnasm.VRange(i, w)
+		}
+	}
 	for try := 0; try < 200; try++ {
 		i := b.r.Intn(isaspec.NumVGPR - w + 1)
 		ok := true
@@ -414,8 +447,10 @@ func (j *job) genScalar(class string, r *vlib.PRNG, nRandom int) []*Case {
 		doms[i] = domOf(sw, 0)
 	}
 	var out []*Case
+	lastSrc, both, pickConst := -1, false, -1
 	mk := func(idx int, vals []uint64, kinds []int, dstKind int, simm uint16) *Case {
 		c := j.caseBase(class, idx, 0)
+		c.Both = both
 		if class == "random" {
 			c.BgSeed = r.Uint64()
 			c.VCC, c.SCC, c.M0 = r.Uint64(), uint32(r.Intn(2)), r.Uint32()
@@ -426,7 +461,13 @@ func (j *job) genScalar(class string, r *vlib.PRNG, nRandom int) []*Case {
 		b := newBuilder(r, c)
 		var ops []gcnasm.Operand
 		for i, sw := range srcW {
-			ops = append(ops, b.scalarSrc(kinds[i], vals[i], sw, idx/3+i))
+			b.forceLast = i == lastSrc
+			pick := idx/3 + i
+			if pickConst >= 0 {
+				pick = pickConst
+			}
+			ops = append(ops, b.scalarSrc(kinds[i], vals[i], sw, pick))
+			b.forceLast = false
 		}
 		d := &c.Desc
 		switch j.format {
@@ -500,8 +541,10 @@ func (j *job) genScalar(class string, r *vlib.PRNG, nRandom int) []*Case {
 			out = append(out, mk(idx, t, kinds, dstKindsFor()[0], 0))
 			idx++
 		}
-		// 2. operand kinds cycled (each source kind x a slice of the cross), destinations cycled
+		// 2. operand kinds cycled (each source kind x a slice of the cross), destinations cycled;
+		// each of these also runs on the timing-side backing
 		ts := tuples(doms)
+		both = true
 		for rep := 0; rep < 4; rep++ {
 			for ki := 0; ki < 14; ki++ {
 				kinds := make([]int, len(srcW))
@@ -517,6 +560,96 @@ func (j *job) genScalar(class string, r *vlib.PRNG, nRandom int) []*Case {
 				idx++
 			}
 		}
+		// 3. every source in turn in the last register of the file, and the destination there
+		for i := range srcW {
+			for rep := 0; rep < 3; rep++ {
+				lastSrc = i
+				kinds := make([]int, len(srcW))
+				for q := range kinds {
+					kinds[q] = okSGPR
+				}
+				out = append(out, mk(idx, ts[(idx*7919)%len(ts)], kinds, okSGPR, 0))
+				idx++
+			}
+		}
+		lastSrc = -1
+		// 4. inline constants (integer and float) in every source position against a small sweep of the other
+		small := make([][]uint64, len(srcW))
+		for i := range srcW {
+			small[i] = cornerSet(doms[i], true)
+		}
+		for i, sw := range srcW {
+			ks := []int{okInt}
+			if sw == 1 {
+				ks = []int{okInt, okFloat}
+			}
+			for _, k := range ks {
+				nconst := len(inlineInts)
+				if k == okFloat {
+					nconst = len(inlineFloats)
+				}
+				for cidx := 0; cidx < nconst; cidx++ {
+					for q := 0; q < len(small[0]); q++ {
+						kinds := make([]int, len(srcW))
+						vals := make([]uint64, len(srcW))
+						for z := range kinds {
+							kinds[z] = okSGPR
+							vals[z] = small[z][(q+z*5)%len(small[z])]
+						}
+						kinds[i] = k
+						pickConst = cidx
+						out = append(out, mk(idx, vals, kinds, okSGPR, 0))
+						pickConst = -1
+						idx++
+					}
+				}
+			}
+		}
+		// 5. both halves of VCC / EXEC as 32-bit sources while the other halves hold unrelated data
+		// (an operand read wider than 32 bits leaks the other half into results and SCC)
+		if len(srcW) == 2 && srcW[0] == 1 && srcW[1] == 1 {
+			pairs := [][2]uint64{{0, 0}, {0x0f, 0xf0}, {1, 1}, {0xffffffff, 0}, {0x12345678, 0xedcba987}, {0x80000000, 0x80000000}, {5, 3}, {0, 1}}
+			kk := [][2]int{{okVCCLo, okEXECLo}, {okEXECLo, okVCCLo}, {okVCCHi, okEXECHi}, {okEXECHi, okVCCLo}, {okVCCLo, okSGPR}, {okSGPR, okEXECLo}}
+			for _, kp := range kk {
+				for _, vp := range pairs {
+					c := mk(idx, []uint64{vp[0], vp[1]}, []int{kp[0], kp[1]}, okSGPR, 0)
+					// dirty the halves that are not operands
+					if kp[0] == okVCCLo || kp[1] == okVCCLo {
+						c.VCC |= 0xa5a5a5a5 << 32
+					}
+					if kp[0] == okVCCHi {
+						c.VCC |= 0x5a5a5a5a
+					}
+					if kp[0] == okEXECLo || kp[1] == okEXECLo {
+						c.EXEC |= 0xc3c3c3c3 << 32
+					}
+					if kp[0] == okEXECHi || kp[1] == okEXECHi {
+						c.EXEC |= 0x3c3c3c3c
+					}
+					out = append(out, c)
+					idx++
+				}
+			}
+			// VCC_LO against the negative inline integers (both are candidates for a 64-bit read)
+			for _, ci := range []int{8, 9, 10} { // -1, -2, -16
+				for _, lo := range []uint64{0, 1, 0xf, 0x10, 0xffffffff, 0x80000000} {
+					for pos := 0; pos < 2; pos++ {
+						kinds := []int{okVCCLo, okInt}
+						vals := []uint64{lo, 0}
+						if pos == 1 {
+							kinds, vals = []int{okInt, okVCCLo}, []uint64{0, lo}
+						}
+						pickConst = ci
+						c := mk(idx, vals, kinds, okSGPR, 0)
+						pickConst = -1
+						c.VCC |= 0xa5a5a5a5 << 32
+						out = append(out, c)
+						idx++
+					}
+				}
+			}
+		}
+		both = false
 		return out
 	}
 	for i := 0; i < nRandom; i++ {
@@ -635,6 +768,9 @@ func (j *job) genSMEM(class string, r *vlib.PRNG, n int) []*Case {
 			if ok || i%9 == 8 { // sometimes the destination overlaps the base pair
 				if !ok {
 					k = base.Index / dataAlign * dataAlign
+					if k+nd > isaspec.NumSGPR {
+						k = (isaspec.NumSGPR - nd) / dataAlign * dataAlign
+					}
 				}
 				d.Data = gcnasm.SRange(k, nd)
 				for q := 0; q < nd; q++ {
@@ -734,13 +870,16 @@ func (j *job) genVALU(class string, r *vlib.PRNG, nRandom int) []*Case {
 	for i := 0; i < nsrc; i++ {
 		doms[i] = domOf(srcW[i], srcF[i])
 	}
-	isMadK := j.name == "v_madak_f32" || j.name == "v_madmk_f32" || j.name == "v_madak_f16" || j.name == "v_madmk_f16"
+	isMadK := j.name == "v_madak_f32" || j.name == "v_madmk_f32" || j.name == "v_madak_f16" || j.name == "v_madmk_f16" ||
+		j.name == "v_fmaak_f32" || j.name == "v_fmamk_f32"
 	anyFloat := srcF[0] != 0 || srcF[1] != 0 || srcF[2] != 0
 	var out []*Case
 
 	// mk builds one case. lanes[i][ln] = value of source i in lane ln; kinds[i] = operand kind.
+	lastSrc, lastDst, both := -1, false, false
 	mk := func(idx int, lanes [][]uint64, kinds []int, exec uint64, tag string, pick int) *Case {
 		c := j.caseBase(class, idx, 0)
+		c.Both = both
 		if class == "random" {
 			c.BgSeed = r.Uint64()
 			c.VSeed = mixu(hash64(j.name)) + uint64(r.Intn(4)) + 100
@@ -792,8 +931,10 @@ func (j *job) genVALU(class string, r *vlib.PRNG, nRandom int) []*Case {
 			if sh.DstSGPR && i == 0 {
 				k = okVGPR
 			}
+			b.forceLast = i == lastSrc
 			if k == okVGPR {
 				o := b.vgpr(srcW[i])
+				b.forceLast = false
 				b.setV(o, lanes[i], srcW[i])
 				b.sig = append(b.sig, "v")
 				ops[i] = o
@@ -810,6 +951,7 @@ func (j *job) genVALU(class string, r *vlib.PRNG, nRandom int) []*Case {
 				}
 			}
 			ops[i] = b.scalarSrc(k, lanes[i][0], srcW[i], pick+i)
+			b.forceLast = false
 		}
 		// EXEC used as data overrides the chosen pattern: keep what scalarSrc set
 		d.Src0, d.Src1, d.Src2 = ops[0], ops[1], ops[2]
@@ -831,7 +973,9 @@ func (j *job) genVALU(class string, r *vlib.PRNG, nRandom int) []*Case {
 				d.Dst = ops[1]
 				b.sig = append(b.sig, "d:=src1")
 			} else {
+				b.forceLast = lastDst
 				d.Dst = b.vgpr(dstW)
+				b.forceLast = false
 				b.sig = append(b.sig, "d:v")
 			}
 		}
@@ -918,7 +1062,9 @@ func (j *job) genVALU(class string, r *vlib.PRNG, nRandom int) []*Case {
 			out = append(out, mk(idx, laneFill(ts, from), allV, ^uint64(0), "", idx))
 			idx++
 		}
-		// 2. operand kinds cycled; scalar kinds fix one source per case, the others sweep the lanes
+		// 2. operand kinds cycled; scalar kinds fix one source per case, the others sweep the lanes;
+		// each of these also runs on the timing-side backing
+		both = true
 		for rep := 0; rep < 3; rep++ {
 			for ki := 0; ki < 14; ki++ {
 				from := (idx * 7919 * 64) % len(ts)
@@ -926,6 +1072,42 @@ func (j *job) genVALU(class string, r *vlib.PRNG, nRandom int) []*Case {
 				idx++
 			}
 		}
+		// 2b. every source in turn (as VGPR, then as SGPR) and the destination in the last register of its file
+		for i := 0; i < nsrc; i++ {
+			for _, k := range []int{okVGPR, okSGPR} {
+				lastSrc = i
+				kinds := append([]int(nil), allV...)
+				kinds[i] = k
+				from := (idx * 7919 * 64) % len(ts)
+				out = append(out, mk(idx, laneFill(ts, from), kinds, ^uint64(0), "", idx))
+				idx++
+			}
+		}
+		lastSrc, lastDst = -1, true
+		out = append(out, mk(idx-idx%5, laneFill(ts, 0), allV, ^uint64(0), "", idx))
+		idx++
+		lastDst = false
+		// 2c. inline integer and float constants in every 9-bit source position against a lane sweep of the others
+		for i := 0; i < nsrc; i++ {
+			if !vop3 && i > 0 {
+				break
+			}
+			for _, k := range []int{okInt, okFloat} {
+				nconst := len(inlineInts)
+				if k == okFloat {
+					nconst = len(inlineFloats)
+				}
+				for cidx := 0; cidx < nconst; cidx++ {
+					kinds := append([]int(nil), allV...)
+					kinds[i] = k
+					from := (idx * 7919 * 64) % len(ts)
+					// scalarSrc picks constant (pick+i) % n
+					out = append(out, mk(idx, laneFill(ts, from), kinds, ^uint64(0), "", cidx+nconst-i%nconst))
+					idx++
+				}
+			}
+		}
+		both = false
 		// 3. scalar first source sweeping its whole corner set against a lane sweep of the second
 		if nsrc >= 1 {
 			s0 := cornerSet(doms[0], nsrc >= 3)
@@ -960,6 +1142,32 @@ func (j *job) genVALU(class string, r *vlib.PRNG, nRandom int) []*Case {
 			}
 			if j.format == gcnasm.VOP2 && !isMadK && !sh.Select && !sh.ReadsDst && srcW[0] == 1 && srcW[1] == 1 && dstW == 1 {
 				tags = append(tags, "sdwa")
+			}
+			if strings.Contains(j.name, "_class_") && vop3 {
+				// every IEEE class against every single-class mask, with ABS resp. NEG on the tested value
+				cs := cornerSet(doms[0], false)
+				for q := 0; q < 2*((len(cs)*10+63)/64); q++ {
+					lanes := make([][]uint64, nsrc)
+					for i := range lanes {
+						lanes[i] = make([]uint64, 64)
+					}
+					for ln := 0; ln < 64; ln++ {
+						n := (q/2)*64 + ln
+						lanes[0][ln] = cs[(n/10)%len(cs)]
+						lanes[1][ln] = 1 << uint(n%10)
+					}
+					tag := []string{"abs", "neg"}[q%2]
+					c := mk(idx-idx%5, lanes, allV, ^uint64(0), tag, idx)
+					c.Desc.Abs, c.Desc.Neg = 0, 0
+					if tag == "abs" {
+						c.Desc.Abs = 1
+					} else {
+						c.Desc.Neg = 1
+					}
+					c.Idx = idx
+					out = append(out, c)
+					idx++
+				}
 			}
 			for _, tag := range tags {
 				n := 12
